@@ -785,7 +785,8 @@ def gen_trace(rng, check, population, tier, cat):
                                         else cands))
                     c2 = r.random()
                     if c2 < (0.40 if check == 'C16' else 0.25):
-                        prog.append({'op': 'mutate', 'ref': ref})
+                        prog.append({'op': 'mutate', 'ref': ref,
+                                     'how': r.randrange(8)})
                         if r.random() < 0.6:   # ... and send it again
                             prog.append({'op': 'marshal_slot', 'ref': ref})
                     elif c2 < (0.55 if check == 'C16' else 0.50):
